@@ -8,7 +8,7 @@ from pyopenapi_gen import IRSpec
 from ..context.render_context import RenderContext
 from ..core.utils import NameSanitizer
 from ..core.writers.code_writer import CodeWriter
-from ..core.writers.documentation_writer import DocumentationBlock, DocumentationWriter
+from ..core.writers.documentation_writer import DocumentationBlock, DocumentationWriter, escape_docstring_text
 
 if TYPE_CHECKING:
     # To prevent circular imports if any type from core itself is needed for hints
@@ -116,13 +116,13 @@ class ClientVisitor:
         # Build docstring for APIClient
         docstring_lines = []
         # Add API title and version
-        docstring_lines.append(f"{spec.title} (version {spec.version})")
+        docstring_lines.append(escape_docstring_text(f"{spec.title} (version {spec.version})"))
         # Add API description if present
         if getattr(spec, "description", None):
             desc = spec.description
             if desc is not None:
                 # Remove triple quotes, escape backslashes, and dedent
-                desc_clean = desc.replace('"""', "'").replace("'''", "'").replace("\\", "\\\\").strip()
+                desc_clean = desc.replace('"""', "'").replace("'''", "'").replace("\\", "\\\\").replace("\x00", "\\x00").strip()
                 desc_clean = textwrap.dedent(desc_clean)
                 docstring_lines.append("")
                 docstring_lines.append(desc_clean)
